@@ -215,6 +215,9 @@ def symptom_key(stderr):
         kind = "glibcxx-assertion"
     elif "Error: " in stderr and "_GLIBCXX_DEBUG" not in stderr and re.search(r"Error: (.*)", stderr) and "In function:" in stderr:
         kind = "glibcxx-debug-" + re.sub(r"[^A-Za-z]+", "-", re.search(r"Error: (.*)", stderr).group(1))[:50].strip("-")
+    elif re.search(r"==\d+== (Conditional jump or move depends on uninitialised|Use of uninitialised|Invalid (read|write)|Invalid free|Mismatched free|Source and destination overlap)", stderr):
+        mm = re.search(r"==\d+== (Conditional jump or move depends on uninitialised|Use of uninitialised|Invalid (read|write)|Invalid free|Mismatched free|Source and destination overlap)", stderr)
+        kind = "memcheck-" + re.sub(r"[^A-Za-z]+", "-", mm.group(1)).strip("-")
     elif "terminate called" in stderr:
         kind = "uncaught-exception"
     fn = ""
@@ -226,6 +229,16 @@ def symptom_key(stderr):
             f = re.sub(r"<.*>", "", f)
             fn = f.split("::")[-1] + "@" + mm.group(2)
             break
+    if not fn:
+        heads = ("directed_graph.hpp", "undirected_graph.hpp", "directed_multigraph.hpp", "undirected_multigraph.hpp", "directed_weighted_graph.hpp",
+                 "undirected_weighted_graph.hpp", "fileio.hpp", "paths.hpp", "topology.hpp", "types.h", "boost_hash.hpp")
+        for line in stderr.splitlines():
+            mm = re.search(r"(?:at|by) 0x[0-9A-Fa-f]+: (.+?) \((\S+?):(\d+)\)", line)
+            if mm and mm.group(2) in heads:
+                f = re.sub(r"\(.*$", "", mm.group(1))
+                f = re.sub(r"<.*>", "", f)
+                fn = f.split("::")[-1] + "@" + mm.group(2)
+                break
     return kind + ("/" + fn if fn else "")
 
 
@@ -296,6 +309,8 @@ def run_sharded(prop, binary, args, cases, seed, tier, nshards, timeout_s, repla
                 for k, v in d["counters"].items():
                     if k.endswith("_max"):
                         merged["counters"][k] = max(merged["counters"].get(k, 0), v)
+                    elif k.endswith("_xor"):
+                        merged["counters"][k] = merged["counters"].get(k, 0) ^ v
                     else:
                         merged["counters"][k] = merged["counters"].get(k, 0) + v
                 merged["samples"] += d["samples"]
@@ -374,6 +389,8 @@ def run_sharded(prop, binary, args, cases, seed, tier, nshards, timeout_s, repla
         for k, v in m["counters"].items():
             if k.endswith("_max"):
                 res.counters[k] = max(res.counters.get(k, 0), v)
+            elif k.endswith("_xor"):
+                res.counters[k] = res.counters.get(k, 0) ^ v
             else:
                 res.counters[k] = res.counters.get(k, 0) + v
         for suf in ("states", "distinct"):
